@@ -76,7 +76,7 @@ def powcall(M, fname, args):
         out = '! ' + type(e).__name__
     else:
         t, v = r
-        tt = '=' if (t == '=' or type_ok(meta['expect'], t)) else 'type:' + t
+        tt = '=' if (t == '=' or type_ok(meta['expect'], t)) else 'type:' + str(t).replace(' ', '~')
         if unconstrained(meta, args):
             out = tt + ' unconstrained'
         else:
